@@ -498,8 +498,11 @@ impl<'a> QGen<'a> {
     /// Queries whose filter has an atom that depends on the root only: the same for every child, and
     /// different between two documents that differ in one top-level member.
     pub fn root_dependent(&self, rng: &mut Rng) -> String {
-        let pre = *rng.pick(&["$.elems", "$.list", "$..*", "$.*", "$.x.b", "$"]);
-        let atom = match rng.below(8) {
+        let pre = *rng.pick(&["$.elems", "$.list", "$..*", "$.*", "$.x.b", "$", "$.names"]);
+        let atom = match rng.below(11) {
+            8 => format!("{}(@, $.names)", rng.pick(&["in", "nin"])),
+            9 => format!("{}(@, $.names)", rng.pick(&["any_of", "none_of", "subset_of"])),
+            10 => format!("in(@.a, $.names) || $.names[0] == {}", quote_single(*rng.pick(&["d", "a", "aa"]))),
             0 => "$.flag == true".to_string(),
             1 => "$.flag".to_string(),
             2 => format!("@ > $.lim"),
